@@ -111,6 +111,12 @@ SITES = {
     "while_body": lambda E: ["_n = 0", "while _n < 2:", "    _n += 1", "    if _n == 2:", f"        r = {E}"],
     "starred": lambda E: [f"r = [*[{E}], 1]"],
     "global_assign": lambda E: ["global G_RES", f"G_RES = {E}"],
+    # evaluated while a nested definition is being made
+    "default_arg": lambda E: [f"def _inner(a={E}):", "    return a", "r = _inner"],
+    "default_arg_line2": lambda E: ["def _inner(a=1,", f"           b={E}):", "    return a", "r = _inner"],
+    "decorator_arg": lambda E: ["def _mk(x):", "    return lambda f: f", f"@_mk({E})", "def _inner():", "    return 1"],
+    "class_body": lambda E: ["class _Tmp:", "    a = 1", f"    b = {E}", "r = _Tmp"],
+    "class_base": lambda E: [f"class _Tmp([object][({E} or 0) * 0]):", "    a = 1", "r = _Tmp"],
 }
 # sites that add a frame of their own (name of the extra frame as CPython shows it)
 LINK_KINDS = ["func", "method", "init", "lambda", "closure", "decorated", "module", "staticm"]
